@@ -361,6 +361,9 @@ class Context:
             old_plugin_class = self._plugin_class_registry.get(p, None)
             if old_plugin_class and old_plugin_class != plugin_class:
                 deregistered.append(old_plugin_class)
+                # Plugins (and lineages) cached for the old class are stale now;
+                # the context hash cannot see a changed class or option default.
+                self._fixed_plugin_cache = None
             self._plugin_class_registry[p] = plugin_class
 
         # If we booted a plugin from a datatype, we must boot it from other
